@@ -40,8 +40,17 @@ func VerifH_C18_interrupt() {
 	vm.Run("var hits = 0, done = false, swallowed = false, fin = false")
 	// 'flag' is a global whose getter is a host function: true three times
 	ticks := 0
+	lastPolls := -1
+	stalled := false
 	vm.Set("verifTick", func(call FunctionCall) Value {
 		ticks++
+		// promptness: the channel must have been polled since the previous
+		// evaluation of the loop condition
+		if pc := verifPollCount(); pc == lastPolls {
+			stalled = true
+		} else {
+			lastPolls = pc
+		}
 		return toValue(ticks <= 3)
 	})
 	vm.Run("Object.defineProperty(this, 'flag', {get: verifTick, configurable: true})")
@@ -93,6 +102,7 @@ func VerifH_C18_interrupt() {
 		db, _ := d.ToBoolean()
 		verifAssert(db, "program ran to its end")
 		verifAssert(polls >= prog.minPolls, "the interrupt channel is polled at least once per loop iteration / call")
+		verifAssert(!stalled, "the channel is polled between two evaluations of a loop condition (no unbounded progress without a poll)")
 	}
 	// at rest and reusable
 	verifAssert(vm.runtime.scope == scopeBefore, "call stack back to rest (scope restored)")
